@@ -366,3 +366,116 @@ def _write_witness(e: int, a: int) -> bool:
     except IOError:
         return True
     return False       # reachability twin: an accepted write must be reachable
+
+
+# ------------------------------------------------------------------ C20: live visibility and non-destructive reading
+
+def _reader_sees_write(a: int, d1: int, d2: int) -> bool:
+    """
+    pre: 0 <= a < 300 and 1 <= d1 < 300 and 1 <= d2 < 300 and a + d1 + d2 < 300
+    post: _
+    """
+    # a reader created BEFORE a write and one created after it both report the new sample as soon as write() returned: bounds include it,
+    # a range read returns it, read_latest returns the highest index (no cached state in the reader)
+    samples0 = [a, a + d1]
+    r_old, st = _setup(samples0)
+    b0 = r_old.get_bounds()
+    w, _st2 = _writer([])
+    # writer and readers share the same store
+    M.h5py = FakeH5(st); M.np = NPW; M.os = FakeOSW
+    # the harness channel of the reader lives under /md/sub, the writer's under its own subdirectory: place the new sample where the reader looks
+    new = a + d1 + d2
+    p = _path(0 if new < W else (1 if new < 2 * W else 2))
+    if p not in st.files: st.files[p] = Group()
+    g = st.files[p].create_group(K(new)); g.create_dataset('v', data=('val', new))
+    M.np = NP
+    r_new = M.DigitalMetadataReader.__new__(M.DigitalMetadataReader)
+    r_new.__dict__.update(r_old.__dict__)
+    ok = True
+    for r in (r_old, r_new):
+        ok = ok and r.get_bounds() == (a, new) and r.read(new, new).keys() == [new] and r.read_latest().keys() == [new]
+    return ok and b0 == (a, a + d1)
+
+
+class _Attrs(dict):
+    def __getitem__(self, k):
+        v = dict.__getitem__(self, k)
+        class V:
+            def item(s): return v
+        return V() if k not in ('file_name', 'digital_metadata_version') else v
+
+
+def _init_nondestructive(accept_empty: bool, has_fields: bool) -> bool:
+    """
+    post: _
+    """
+    # constructing a metadata reader on a valid channel never deletes anything, except the documented accept_empty=False branch on a
+    # channel that has no fields yet
+    removed = []
+    class FOS:
+        class path:
+            @staticmethod
+            def join(*a): return '/'.join(a)
+        @staticmethod
+        def remove(p): removed.append(p)
+        @staticmethod
+        def getpid(): return 1
+    root = Group()
+    root.attrs = _Attrs(subdir_cadence_secs=1000, file_cadence_secs=100, sample_rate_numerator=1, sample_rate_denominator=1, file_name='md',
+                        digital_metadata_version='2.5.0')
+    if has_fields:
+        class FD:
+            def __getitem__(s, k): return []
+            def __iter__(s): return iter([])
+            def __len__(s): return 0
+        root.items_.append(('fields', FD()))
+    st = Store(); st.files['/md/dmd_properties.h5'] = root
+    class G:
+        @staticmethod
+        def glob(p): return ['/md/dmd_properties.h5']
+    import numpy as _np
+    M.h5py = FakeH5(st); M.os = FOS; M.glob = G; M.np = _np
+    r = M.DigitalMetadataReader.__new__(M.DigitalMetadataReader)
+    r._check_compatible_version = lambda: None
+    try:
+        M.DigitalMetadataReader.__init__(r, '/md', accept_empty=accept_empty)
+        raised = False
+    except IOError:
+        raised = True
+    if accept_empty or has_fields: return removed == [] and not raised
+    return removed == ['/md/dmd_properties.h5'] and raised
+
+
+def _add_metadata_nondestructive(readable: bool, writable: bool, age: int, cadence: int) -> bool:
+    """
+    pre: 0 <= age <= 10**6 and 1 <= cadence <= 10**6
+    post: _
+    """
+    # reading a data file deletes it only if opening it fails although it is accessible AND it is older than one file cadence;
+    # a file that opens is never touched
+    removed = []
+    st = Store(); st.files['/md/f'] = Group(); st.files['/md/f'].create_group(K(5)).create_dataset('v', data=1)
+    class FOS:
+        R_OK = 4; W_OK = 2
+        class path:
+            @staticmethod
+            def getmtime(p): return 1000
+        @staticmethod
+        def access(p, m): return readable if m == 4 else writable
+        @staticmethod
+        def remove(p): removed.append(p)
+    class T:
+        @staticmethod
+        def time(): return 1000 + age
+    M.h5py = FakeH5(st); M.np = NP; M.collections = Coll; M.os = FOS; M.time = T
+    M.traceback = type('TB', (), {'print_exc': staticmethod(lambda: None)})
+    M.print = lambda *a, **k: None
+    r = M.DigitalMetadataReader.__new__(M.DigitalMetadataReader)
+    r._file_cadence_secs = cadence
+    out = RecOD()
+    r._add_metadata(out, '/md/f', None, 0, 10, True)          # file opens fine
+    ok1 = removed == [] and out.keys() == [5]
+    st.unreadable.add('/md/bad')
+    r._add_metadata(out, '/md/bad', None, 0, 10, True)        # open raises IOError
+    want = ['/md/bad'] if (readable and writable and age > cadence) else []
+    return ok1 and removed == want
